@@ -199,6 +199,7 @@ func (conn *Conn) receiveRoutine() {
 
 	var msgSizeBytes [4]byte
 	var err error
+	var doneCh = conn.ctx.Done()
 routine:
 	for {
 		if err = conn.readNetConn(msgSizeBytes[:]); err != nil {
@@ -219,7 +220,12 @@ routine:
 			break routine
 		}
 		conn.maintainKeepalive()
-		conn.recvCh <- data
+		select {
+		case conn.recvCh <- data:
+		case <-doneCh:
+			// nobody reads any more and the connection is being stopped
+			break routine
+		}
 	}
 }
 
